@@ -670,8 +670,18 @@ def eq(ctx, a, b):
                 return z3.BoolVal(False)
             return z3.And([eq(ctx, ca.items[k], cb.items[k])
                            for k in ca.items] + [z3.BoolVal(True)])
+        if isinstance(ca, ObjCell) and getattr(ctx, 'it', None) is not None:
+            # user-defined equality of a repository class
+            it = ctx.it
+            for k in ca.cls.__mro__:
+                if '__eq__' in k.__dict__ and k is not object:
+                    qn = '%s.%s.__eq__' % (k.__module__, k.__qualname__)
+                    r = it.engine.call_inline(it, qn, [a, b], {})
+                    return truth(ctx, r)
         if a.ref == b.ref:
             return z3.BoolVal(True)
+        if isinstance(ca, ObjCell) or isinstance(cb, ObjCell):
+            return z3.BoolVal(False)     # object identity
         raise Unsupported('== on heap objects')
     if type(a) is not type(b):
         # different static types: never equal (bool/int handled above)
